@@ -105,6 +105,8 @@ TEMPLATES = {
     'e_a0_args': '__FST_fn(__FST_a0, __FST_rest)',
     'e_a0_wrap': 'g(0, __FST_a0, __FST_rest)',
     'e_a0_two': 'g(__FST_a0, __FST_a0, __FST_rest, k=1)',
+    's_body_then': '__FST_b\nafter()',
+    's_before_body': 'before()\n__FST_b',
     's_class_rest': 'class New(__FST_a0, __FST_rest):\n    pass',
     's_for_chain': 'for __FST_t in chain(__FST_i, 0):\n    __FST_b',
     's_if_check': 'if check(__FST_t, 1):\n    __FST_b',
@@ -173,6 +175,48 @@ if t2:
 if t5:
     if t6:
         z = 1
+'''
+
+# compound statements whose body STARTS with a statement of the same kind and has further ones after it: with nested=True
+# every statement put in place of a match (by any loop iteration at that place) has to be searched
+NEST_PROGRAM = '''\
+def nest(a, b, c):
+    if a:
+        if b:
+            x = 1
+            y0 = 0
+        if c:
+            y = 2
+        z = 3
+    while w1:
+        while w2:
+            s1()
+        while w3:
+            s2()
+            s4()
+        s3()
+    for i in r1:
+        for j in r2:
+            t1()
+            t0()
+        for k in r3:
+            t2()
+        t3()
+    with c1:
+        with c2:
+            u1()
+            u0()
+        with c3:
+            u2()
+    if d:
+        if e:
+            if g:
+                v1 = 1
+            if h:
+                v2 = 2
+            v3 = 3
+        if m:
+            v4 = 4
 '''
 
 # sequences (tuples, lists, sets) as FIRST elements / first arguments / loop iterables / tests: a node captured from
@@ -324,7 +368,7 @@ def plain_param_programs():
 
 def programs():
     from corpus.programs import PROGRAMS
-    return list(PROGRAMS) + EXTRA_PROGRAMS + [SEQ_PROGRAM, PEEL_PROGRAM]
+    return list(PROGRAMS) + EXTRA_PROGRAMS + [NEST_PROGRAM, SEQ_PROGRAM, PEEL_PROGRAM]
 
 
 def template_tops(src: str, cat: str):
@@ -521,6 +565,11 @@ def run_case(rec: Recorder, tid: int, src: str, pat_id: str, tmpl_src: str, cat:
     t_sids = [rec.tab.sid(c) for c in T]
     cfg = dict(cfg, shapeOnly=SHAPE_ONLY, docstr=cfg.get('docstr', True), replModule=bool(repl_as_fst), cat=cat)
 
+    try:    # fact: does the pattern match a node of the template itself (such nodes are never substituted)
+        tf = FST(tmpl_src, 'arguments' if cat == 'arguments' else 'exec' if cat == 'stmt' else 'expr')
+        tmpl_m = sum(1 for _ in tf.search(pat, nested=True))
+    except Exception:  # noqa: BLE001
+        tmpl_m = -1
     f = FST(src, 'exec')
     init = rec.state(f)
     root0 = ast.parse(init['_src'])
@@ -538,7 +587,7 @@ def run_case(rec: Recorder, tid: int, src: str, pat_id: str, tmpl_src: str, cat:
 
     def cb(matched):
         cur['n'] += 1
-        if cur['n'] > max(EVENT_CAP, 6 * len(S) + 40):
+        if cur['n'] > (2 * len(S) + 40 if cfg['loop'] < 0 else max(EVENT_CAP, 6 * len(S) + 40)):   # loop=True may run away by design
             cur['diverged'] = True
             raise Runaway()
         pre = rec.state(f)
@@ -563,7 +612,7 @@ def run_case(rec: Recorder, tid: int, src: str, pat_id: str, tmpl_src: str, cat:
         kw_opt = {'docstr': False}
     else:
         kw_opt = {}
-    kw = dict(kw_opt, count=cfg['count'], loop=cfg['loop'] if cfg['loop'] else False, on=cfg['on'], back=cfg['back'])
+    kw = dict(kw_opt, count=cfg['count'], loop=True if cfg['loop'] < 0 else cfg['loop'] if cfg['loop'] else False, on=cfg['on'], back=cfg['back'])
     if cfg['cb']:
         kw.update(callback=cb, callback_after=cba)
     if cat == 'arguments':          # a parameter list can only be given as a node
@@ -587,9 +636,15 @@ def run_case(rec: Recorder, tid: int, src: str, pat_id: str, tmpl_src: str, cat:
         exp, valid, _ = ref.reference(root0, T, S, sel[0], sel[1])
         if exp is not None:
             has_ref, exp_s = True, rec.tab.sid(exp)
-    steps.append({'k': 'done', 'outcome': outcome, 'exc': exc, 'uniq': uniq, 'total': total, 'hasRef': has_ref,
+    final_m = []
+    if outcome == 'ok' and cfg['nested'] and cfg['on'] == 'enter' and cfg['count'] == 0:
+        try:    # observation: what still matches in the result (pfst search, C17)
+            final_m = [_jpath(_path(f, m.matched)) for m in f.search(pat, nested=True)]
+        except Exception:  # noqa: BLE001
+            final_m = [[{'n': '?', 'i': 1}]]
+    steps.append({'k': 'done', 'finalM': final_m, 'outcome': outcome, 'exc': exc, 'uniq': uniq, 'total': total, 'hasRef': has_ref,
                   'expValid': valid, 'expS': exp_s, 'post': final})
-    trace = {'id': tid, 'T': t_sids, 'cfg': cfg, 'init': init, 'S': [jmatch(m) for m in S], 'steps': steps}
+    trace = {'id': tid, 'T': t_sids, 'tmplM': tmpl_m, 'cfg': cfg, 'init': init, 'S': [jmatch(m) for m in S], 'steps': steps}
     info = {'pattern': pat_id, 'template': tmpl_src, 'cfg': cfg, 'matches': len(S), 'events': len(steps) - 1,
             'outcome': outcome, 'exc': exc, 'uniq': uniq, 'total': total, 'static': None if sel is None else
             ('nested' if sel[1] else 'outermost'), 'pre_src': init['_src'], 'post_src': final['_src']}
